@@ -234,11 +234,16 @@ theorem pm_step (cfg : Cfg) (fuel : Nat) (hV : PVs cfg fuel) (hM : PMs cfg fuel)
         exact ⟨(cur s).1 :: body ++ [(cur s).1], r', by simp, Key.quoted _ _ _ hq' g2 g4, g5⟩
       · split at hkey
         · rename_i hu
-          obtain ⟨_, hk, hs⟩ := tuple_ok hkey
+          obtain ⟨hcode, hk, hs⟩ := tuple_ok hkey
+          have hlen : key.length ≤ cfg.maxStrLen := by
+            rw [← hk]
+            by_cases hh : (parseUnquoted (fuel + 1) [] (cur s).2).1.length > cfg.maxStrLen
+            · rw [if_pos hh] at hcode; cases hcode
+            · omega
           obtain ⟨x, r', g1, g2, g3, g4⟩ := parseUnquoted_sound _ _ _ _ _ _ k1 (Prod.ext hk hs)
           simp only [List.reverse_nil, List.nil_append] at g2
           subst g2
-          refine ⟨key, r', g1, Key.bare _ ?_ g3, g4⟩
+          refine ⟨key, r', g1, Key.bare _ ?_ g3 hlen, g4⟩
           intro hnil
           -- the first byte is an identifier byte, and the loop has fuel for it
           rw [hnil] at hk
